@@ -672,6 +672,9 @@ pub fn spanning_cases() -> Vec<(&'static str, Vec<(&'static str, String)>, Strin
     add("else-in-the-included-file", ".if 1\n.dw 1\n.include \"part.inc\"\n.dw 3\n.endif\n.dw 4\n", ".dw 2\n.else\n.dw 9\n", "conditional-skip-crosses-end-of-file");
     // (an .include line that itself stands in an unselected branch is never performed — C08 — so
     //  "closed in a file included from the skipped part" is not a case of this property)
+    // an .include that stands in a macro body is performed where the macro is called: the file is
+    // looked for by the same rules (here: next to the including file)
+    add("include-inside-a-macro-body", ".macro inc_m\n.include \"part.inc\"\n.endm\n.dw 1\ninc_m\n.dw 3\ninc_m\n", ".dw 2\n", "include-in-macro-body");
     add("macro-definition-closed-in-the-including-file", ".dw 1\n.include \"part.inc\"\n.dw 3\n.endm\nspan_m\n.dw 4\n", ".macro span_m\n.dw 2\n", "macro-definition-crosses-end-of-file");
     v
 }
